@@ -41,7 +41,7 @@ def install_probe():
     _INSTALLED = True
 
 
-class Timeout(Exception):
+class Timeout(BaseException):
     pass
 
 
